@@ -564,13 +564,26 @@ pub fn generate(p: &GenParams, out: &mut Out) {
                 if !sel.take() {
                     continue;
                 }
-                let n = 2 + rng.below(3);
+                let n = if rng.chance(1, 3) { 5 + rng.below(6) } else { 2 + rng.below(3) };
                 let mut calls = Vec::new();
                 for _ in 0..(1 + rng.below(4)) {
                     let kind: String = (*rng.pick(&["logic", "contains"])).into();
                     if rng.chance(1, 2) {
-                        let len = rng.below(5);
-                        let pairs = (0..len).map(|_| [1 + rng.below(n), 1 + rng.below(n)]).collect();
+                        let len = if rng.chance(1, 3) { 7 + rng.below(6) } else { rng.below(5) };
+                        let mut pairs: Vec<[usize; 2]> = (0..len).map(|_| [1 + rng.below(n), 1 + rng.below(n)]).collect();
+                        // long batches: mostly forward pairs (so that they are often accepted), with repeats
+                        if len >= 7 {
+                            for p in pairs.iter_mut() {
+                                if rng.chance(4, 5) && p[0] > p[1] {
+                                    p.swap(0, 1);
+                                }
+                            }
+                            if rng.chance(1, 2) {
+                                let a = rng.below(len);
+                                let b = rng.below(len);
+                                pairs[a] = pairs[b];
+                            }
+                        }
                         calls.push(BCall::Edges { kind, pairs });
                     } else {
                         calls.push(BCall::Edge { kind, a: 1 + rng.below(n), b: 1 + rng.below(n) });
@@ -612,6 +625,60 @@ pub fn generate(p: &GenParams, out: &mut Out) {
                 if n <= 7 {
                     s.phases.push(Phase::Eq);
                 }
+                let r = run_scenario(&s, p.hooks, &ExploreOpts::default());
+                emit(&s, &r.trace);
+            }
+        }
+        // Larger builder inputs around the usual size thresholds (20/21, 32, 64, 65, 128), with declarations over
+        // up to 12 data types, functions inserted in any order, and all post-build phases.
+        "builder_big" => {
+            let mut rng = Rng::new(p.seed ^ 0xB16);
+            let cnt = if p.count > 0 { p.count } else if thorough { 400 } else { 90 };
+            for i in 0..cnt {
+                let n = match rng.below(10) {
+                    0 | 1 => 64,
+                    2 => 63 + rng.below(4),
+                    3 => 128 + rng.below(2) * rng.below(3),
+                    4 => 30 + rng.below(6),
+                    5 | 6 => 18 + rng.below(8),
+                    _ => 13 + rng.below(60),
+                };
+                let shape = rng.below(6);
+                let mut e: Vec<(usize, usize)> = match shape {
+                    0 => random_dag(&mut rng, n, 3, false),
+                    1 => random_dag(&mut rng, n, 8, false),
+                    // one late function that everything else follows, or precedes
+                    2 => (1..n).map(|a| (n, a)).collect(),
+                    3 => vec![(n, 1)],
+                    // setup + pipeline: setup -> s_i for all i, chain s_1 -> s_2 -> ...
+                    4 => {
+                        let k = std::cmp::min(n - 1, 12 + rng.below(12));
+                        let mut v: Vec<(usize, usize)> = (2..=k + 1).map(|b| (1, b)).collect();
+                        v.extend((2..=k).map(|a| (a, a + 1)));
+                        v
+                    }
+                    _ => {
+                        // a few independent chains
+                        let chains = 2 + rng.below(4);
+                        (1..n).filter(|a| a % chains != 0 || true).filter_map(|a| if a + chains <= n { Some((a, a + chains)) } else { None }).collect()
+                    }
+                };
+                if rng.chance(1, 3) {
+                    for a in (1..e.len()).rev() {
+                        let b = rng.below(a + 1);
+                        e.swap(a, b);
+                    }
+                }
+                let types = *rng.pick(&[1usize, 1, 2, 3, 9, 12]);
+                let none = *rng.pick(&[0u64, 40, 80, 95]);
+                let (reads, writes) = random_access(&mut rng, n, types, none);
+                let km = rng.next();
+                if !sel.take() {
+                    continue;
+                }
+                let mut s = base_scn(format!("bb-{i}"), n, calls_of(&e, km), reads, writes);
+                s.phases.push(Phase::Seq { fail_at: rng.below(n + 2) });
+                s.phases.push(Phase::GraphInfo);
                 let r = run_scenario(&s, p.hooks, &ExploreOpts::default());
                 emit(&s, &r.trace);
             }
@@ -769,6 +836,52 @@ pub fn generate(p: &GenParams, out: &mut Out) {
                     }
                     emit(&s, &r.trace);
                 }
+            }
+            // the same dense shapes placed AFTER a block of other functions (index-dependent work)
+            for (off, k) in [(64usize, 10usize), (64, 14), (70, 12), (130, 10)] {
+                if over || off + k > cap {
+                    continue;
+                }
+                let n = off + k;
+                let e: Vec<(usize, usize)> = (1..=k).flat_map(|a| ((a + 1)..=k).map(move |b| (off + a, off + b))).collect();
+                idx += 1;
+                if !sel.take() {
+                    continue;
+                }
+                let s = base_scn(format!("off{off}k{k}-{idx}"), n, calls_of(&e, 0), vec![], vec![]);
+                let r = run_scenario(&s, p.hooks, &ExploreOpts::default());
+                if let Some(b) = r.trace.iter().find(|v| v["ev"] == "build") {
+                    if b["rank_pops"].as_i64().unwrap_or(0) > (n * n + n) as i64 {
+                        over = true;
+                    }
+                }
+                emit(&s, &r.trace);
+            }
+            for (off, wd, d) in [(64usize, 2usize, 10usize), (66, 2, 13), (64, 3, 7)] {
+                if over || off + wd * d > cap {
+                    continue;
+                }
+                let n = off + wd * d;
+                let mut e: Vec<(usize, usize)> = (1..off).map(|a| (a, a + 1)).collect();
+                for l in 0..(d - 1) {
+                    for a in 0..wd {
+                        for b in 0..wd {
+                            e.push((off + l * wd + a + 1, off + (l + 1) * wd + b + 1));
+                        }
+                    }
+                }
+                idx += 1;
+                if !sel.take() {
+                    continue;
+                }
+                let s = base_scn(format!("offlay{off}-{wd}x{d}-{idx}"), n, calls_of(&e, 0), vec![], vec![]);
+                let r = run_scenario(&s, p.hooks, &ExploreOpts::default());
+                if let Some(b) = r.trace.iter().find(|v| v["ev"] == "build") {
+                    if b["rank_pops"].as_i64().unwrap_or(0) > (n * n + n) as i64 {
+                        over = true;
+                    }
+                }
+                emit(&s, &r.trace);
             }
             // random dense
             let mut rng = Rng::new(p.seed ^ 0xDE75E);
